@@ -670,6 +670,9 @@ for c in calls:
         continue
     L.subj_reset()
     out0 = L.hd_outstanding()
+    objs = pos + list((kw or {}).values())
+    rc0 = [sys.getrefcount(o) for o in objs]
+    r = None
     try:
         r = fn(*pos) if kw is None else fn(*pos, **kw)
         trace = L.subj_trace().decode("latin-1")
@@ -677,6 +680,8 @@ for c in calls:
     except BaseException as e:
         trace = L.subj_trace().decode("latin-1")
         res = {"i": i, "r": "exc", "type": type(e).__name__, "msg": str(e)[:200]}
+    r = None
+    res["refs"] = [sys.getrefcount(o) - b for o, b in zip(objs, rc0)]
     res["trace"] = trace
     res["leak"] = L.hd_outstanding() - out0
     out.write(json.dumps(res) + "\n"); out.flush()
@@ -1181,6 +1186,9 @@ def check_library(ctx, drv, lib, thorough, r, dis_gen, dis_call, extra_calls=())
                 if S is not None:
                     E = f
                     break
+            if any(res.get("refs") or []):
+                ctx.fail("refcount:%s:%s" % (lib.name, sig), "%s: after the call and after its result is dropped the reference counts "
+                         "of the arguments changed by %s" % (sig, res["refs"]), replay)
             if res.get("leak"):
                 ctx.fail("leak:%s:%s" % (lib.name, sig), "%s: the wrapper left %d allocation(s) behind" % (sig, res["leak"]), replay)
             if res["r"] == "crash":
